@@ -83,7 +83,7 @@ func c06(r *Report) propMeta {
 	cps := fK + "CalculatePrices"
 	r.ArgHas("quorum-is-bonded-times-param", cps, "Keeper.CalculatePrice", 3, 1, "^call:LegacyDec.TruncateInt", "call:LegacyDec.Mul", "call:StakingKeeper.TotalBondedTokens", "field:Params.PriceQuorum")
 	r.ArgHas("price-of-feed", cps, "Keeper.CalculatePrice", 1, 1, "field:CurrentFeeds.Feeds", "call:Keeper.GetCurrentFeeds")
-	r.ArgHas("stored-price-is-calculated", cps, "Keeper.SetPrice", 1, 1, "call:Keeper.CalculatePrice")
+	r.ArgHas("stored-price-is-calculated", cps, "Keeper.SetPrice", 1, 1, "^~call:Keeper.CalculatePrice") // THE result of CalculatePrice, not a merge with a price from elsewhere (seed C06-11: a "reuse the last price" fast path)
 	pw := "x/feeds/types.CalculatePricesPowers"
 	r.StatusSums("power-sums", pw, ft)
 
